@@ -1,5 +1,7 @@
 """C04 - garbage collection timing never changes what a program observes.  PARTIAL claim.
 
+Generated on every run (translate/gen_gc.py -> Gen/GenGC.v): the reference-count constants of __gc_callback__ and the
+functions that take the cache lock; Misc/GC.v's thresholds are those constants.
 Proved (Props/C04.v): the logic of _WrapperCache.__gc_callback__ at quiescent points over a reference graph with
 derived reference counts (content unchanged, release empties the cache, identity/edits of held nodes, held appended
 text never coalesced) + the refutation for finding 16 (empty head with a chain).
@@ -581,7 +583,7 @@ def replay_open(f):
 
 # =============================================================================================== driver
 def run(ctx, args):
-    ctx.regen(["GenWs.v"])
+    ctx.regen(["GenWs.v", "GenGC.v"])
     ctx.build("Props/C04.vo")
     state = (gc.isenabled(), gc.get_threshold())
     try:
